@@ -1133,6 +1133,114 @@ func loadVersionsStrict(fd *ast.FuncDecl) bool {
 	return false
 }
 
+// parseFunc returns the declaration of recv.name in file (recv "" = a plain function).
+func parseFunc(file, recv, name string) (*ast.FuncDecl, error) {
+	f, err := parser.ParseFile(token.NewFileSet(), file, nil, 0)
+	if err != nil {
+		return nil, err
+	}
+	for _, d := range f.Decls {
+		if fd, ok := d.(*ast.FuncDecl); ok && fd.Body != nil && fd.Name.Name == name && recvName(fd) == recv {
+			return fd, nil
+		}
+	}
+	return nil, nil
+}
+
+// retryRebuildsRecords: writer.go (*partitionWriter).writeBatch — the record reader handed to Produce (a `writerRecords`
+// composite literal) is built anew for every attempt: inside the retry loop, or inside the function the loop calls
+// ((*Writer).produce) — never once before the loop (a reader is consumed by the request that sends it: the retry after a
+// lost response would go out empty).
+func retryRebuildsRecords(file string) (bool, error) {
+	wb, err := parseFunc(file, "partitionWriter", "writeBatch")
+	if err != nil || wb == nil {
+		return false, err
+	}
+	isRecords := func(n ast.Node) bool {
+		cl, ok := n.(*ast.CompositeLit)
+		if !ok {
+			return false
+		}
+		id, ok := cl.Type.(*ast.Ident)
+		return ok && id.Name == "writerRecords"
+	}
+	count := func(n ast.Node) (k int) {
+		ast.Inspect(n, func(m ast.Node) bool {
+			if m != nil && isRecords(m) {
+				k++
+			}
+			return true
+		})
+		return k
+	}
+	var loop *ast.ForStmt
+	for _, st := range wb.Body.List {
+		if f, ok := st.(*ast.ForStmt); ok && loop == nil {
+			loop = f
+		}
+	}
+	if loop == nil {
+		return false, nil
+	}
+	outside := count(wb.Body) - count(loop)
+	inside := count(loop)
+	// built by a callee of the loop: a method of Writer called inside the loop whose body has the literal
+	f, _ := parser.ParseFile(token.NewFileSet(), file, nil, 0)
+	if f != nil {
+		for _, d := range f.Decls {
+			fd, ok := d.(*ast.FuncDecl)
+			if !ok || fd.Body == nil || fd == wb || count(fd.Body) == 0 {
+				continue
+			}
+			if containsCall(loop, fd.Name.Name) {
+				inside++
+			}
+		}
+	}
+	return outside == 0 && inside > 0, nil
+}
+
+// readerClosesUnderDeadline: reader.go (*reader).read — the batch is never closed by a deferred call, and every
+// `….Close()` of it comes (in program text) before the statement that clears the read deadline,
+// `conn.SetReadDeadline(time.Time{})`: Batch.Close skips the rest of the response, a read like any other.
+func readerClosesUnderDeadline(file string) (bool, error) {
+	fd, err := parseFunc(file, "reader", "read")
+	if err != nil || fd == nil {
+		return false, err
+	}
+	clear := token.NoPos
+	closes, deferred := []token.Pos{}, false
+	ast.Inspect(fd.Body, func(n ast.Node) bool {
+		switch s := n.(type) {
+		case *ast.DeferStmt:
+			if containsCall(s, "Close") {
+				deferred = true
+			}
+		case *ast.CallExpr:
+			if sel, ok := s.Fun.(*ast.SelectorExpr); ok {
+				if sel.Sel.Name == "Close" {
+					closes = append(closes, s.Pos())
+				}
+				if sel.Sel.Name == "SetReadDeadline" && len(s.Args) == 1 {
+					if cl, ok := s.Args[0].(*ast.CompositeLit); ok && len(cl.Elts) == 0 {
+						clear = s.Pos()
+					}
+				}
+			}
+		}
+		return true
+	})
+	if deferred || len(closes) == 0 {
+		return false, nil
+	}
+	for _, p := range closes {
+		if clear != token.NoPos && p > clear {
+			return false, nil
+		}
+	}
+	return true, nil
+}
+
 // batchCloseMindsDiscard: in (*Batch).close the result of `….discard()` (skipping what is left of the response) is
 // assigned — `x := ….discard()`, `x = ….discard()` or the init of an if — and never dropped as a bare call.  (An assigned
 // but unused variable does not compile.)
@@ -1823,6 +1931,16 @@ func extractConnLegacy(repo, root string) error {
 	// which errors close the connection: `if !errors.As(err, &kafkaError) { c.conn.Close() }` in do,
 	// `if !errors.As(err, &kafkaError) && !errors.Is(err, io.ErrShortBuffer) { conn.Close() }` in Batch.close
 	fmt.Fprintf(&b, "/-- (*Conn).loadVersions returns on ANY error of ApiVersions before the version map is built and stored -/\ndef loadVersionsStrict : Bool := %v\n\n", loadVersionsStrict(connFns["loadVersions"]))
+	rr, err := retryRebuildsRecords(filepath.Join(repo, "writer.go"))
+	if err != nil {
+		return fmt.Errorf("untranslated: %v", err)
+	}
+	rc, err := readerClosesUnderDeadline(filepath.Join(repo, "reader.go"))
+	if err != nil {
+		return fmt.Errorf("untranslated: %v", err)
+	}
+	fmt.Fprintf(&b, "/-- writer.go writeBatch: the record reader of a produce request is built anew for every attempt -/\ndef retryRebuildsRecords : Bool := %v\n", rr)
+	fmt.Fprintf(&b, "/-- reader.go (*reader).read: the batch is closed (its rest skipped) before the read deadline is cleared, never by a deferred call -/\ndef readerClosesUnderDeadline : Bool := %v\n\n", rc)
 	fmt.Fprintf(&b, "/-- (*Batch).close uses the result of msgs.discard(): a response whose rest cannot be skipped does not end in a kept Conn -/\ndef batchCloseMindsDiscard : Bool := %v\n\n", batchCloseMindsDiscard(connFns["Batch.close"]))
 	fmt.Fprintf(&b, "/-- (*Conn).do / (*Batch).close close the connection exactly on errors that are not kafka errors (Batch: nor io.ErrShortBuffer) -/\ndef doClosesNonKafka : Bool := %v\ndef batchClosesNonKafka : Bool := %v\n\n",
 		closesOnNonKafka(connFns["do"], false), closesOnNonKafka(connFns["Batch.close"], true))
